@@ -249,8 +249,8 @@ def r10_2(run):
     g = cfg_of(mu)
     for s in st:
         for n in g.nodes_containing(s):
-            gd = g.guarded_by(n, lambda t: isinstance(t, ast.Compare) and isinstance(t.ops[0], ast.NotIn) and dotted(t.comparators[0]) == 'self.unsaved')
-            run.ob('R10.2', mu, s, 'an already-pending value is not overwritten by the saved one', any(lab == 'T' for _, lab in gd), slot='no-clobber',
+            run.ob('R10.2', mu, s, 'an already-pending value is not overwritten by the saved one',
+                   established(g, n, 'member', lambda t: dotted(t.comparators[0]) == 'self.unsaved', positive=False), slot='no-clobber',
                    message='mark_unsaved overwrites a pending value with the saved one')
 
 
